@@ -518,6 +518,10 @@ def gen_cfg(rng, focus, tier):
         t.append("verbose=1")
     elif r < 0.2:
         t.append("up=" + rng.choice(["stream-verbose", "rr-verbose"]))
+    if rng.random() < 0.15:
+        # a ProxyWriter-wrapping middleware between Buffer and the handler: every call of the handler (an empty Write, a 1xx,
+        # a late WriteHeader) must reach the buffer's writer unchanged (C20_pw_transparent)
+        t.append("dn=" + rng.choice(["trace", "cbreaker"]))
     return "cfg " + " ".join(t), dict(maxreq=maxreq, memreq=memreq, maxresp=maxresp, memresp=memresp, expr=expr), True
 
 
